@@ -55,6 +55,9 @@ def main():
     sh(f'git -C /repo worktree add --detach {wt} HEAD')
     rp = os.path.join(out, 'result.json')
     res = json.load(open(rp)) if os.path.exists(rp) else {'id': bid, 'written_for': pid, 'checks': {}}
+    if '--fresh' in a:
+        res['checks'] = {}                                   # forget earlier verdicts (the checks have changed since)
+    res['verif_commit'] = sh(f'git -C {HERE} rev-parse --short HEAD').stdout.strip()
     res['base_commit'] = sh('git -C /repo rev-parse --short HEAD').stdout.strip()
     try:
         ap = sh(f'cd {wt} && git apply {out}/patch.diff')
